@@ -23,7 +23,7 @@ fn h<T: Hash>(t: &T) -> u64 {
     s.finish()
 }
 
-fn run<T: PartialEq + Eq + Hash>(c: &SecEqCase, mk: fn(String) -> T) -> Exec {
+fn run<T: PartialEq + Eq + Hash + 'static>(c: &SecEqCase, mk: fn(String) -> T) -> Exec {
     let (a, bb, cc) = (mk(c.a.clone()), mk(c.b.clone()), mk(c.c.clone()));
     let a2 = mk(c.a.clone());
     let (ab, ba, bc, ac, aa) = (a == bb, bb == a, bb == cc, a == cc, a == a2);
@@ -47,6 +47,15 @@ fn run<T: PartialEq + Eq + Hash>(c: &SecEqCase, mk: fn(String) -> T) -> Exec {
     }
     if ab && !hashab {
         oracle.push(("C20:hash-inconsistent".into(), format!("{:?}", c.a)));
+    }
+    // the hash of a value is a function of its content alone: the same on another thread (a collection filled on one thread
+    // is looked up from another), for an equal value built there
+    {
+        let text = c.a.clone();
+        let other_thread = std::thread::spawn(move || h(&mk(text))).join().unwrap();
+        if other_thread != h(&a) {
+            oracle.push(("C20:hash-inconsistent".into(), format!("equal values hash to {other_thread:#x} on another thread and {:#x} on this one: {:?}", h(&a), c.a)));
+        }
     }
     // keys of a hash collection
     let mut set = HashSet::new();
